@@ -7,6 +7,8 @@ from mirsym.mirread import Unsupported
 from mirsym import models
 from . import lexcommon as LC, topo_common as TC
 
+def _fault_codes(code): return (code,) if isinstance(code, str) else tuple(code)
+
 _CTX = None
 GOOD = 'PROGRAM p%d\nVAR\n  x : INT;\nEND_VAR\n  x := 1;\nEND_PROGRAM\n'
 BAD_SYNTAX = 'PROGRAM q%d\nVAR\n  x : INT\nEND_VAR\nEND_PROGRAM\n'
@@ -337,7 +339,7 @@ def _k6_job(job):
     for o in outs:
         if o == 'rejected': part.inconc('%s + %s does not parse' % (uname, cname)); continue
         kind, ds = o
-        if not any(d[0] == code for d in ds):
+        if not any(d[0] in _fault_codes(code) for d in ds):
             part.add('C03/K6/%s/masked-by-%s' % (uname, cname), 'the fault of unit %s (%s) is not reported when the valid declaration(s) %r %s it%s: analysis returns %s' % (uname, code, cname, 'follow' if order == 0 else 'precede',
                      ' in a second file' if split else '', [d[0] for d in ds] or 'success'), {'files': files}, ('unit_masked', (uname, cname)))
         if len(part.samples) < 1: part.samples.append({'unit': uname, 'companion': cname, 'codes': [d[0] for d in ds]})
@@ -356,7 +358,7 @@ def _replay_unit_masked(uname, cname):
             got = TP.real_analyze(ctx, files)
             if got == 'panic': return True, {'files': files, 'result': 'panic'}
             if got == 'rejected': return None, {'files': files, 'result': 'rejected'}
-            if not any(g[0] == code for g in got): bad.append({'files': files, 'codes': [g[0] for g in got]})
+            if not any(g[0] in _fault_codes(code) for g in got): bad.append({'files': files, 'codes': [g[0] for g in got]})
         return bool(bad), {'unit': uname, 'companion': cname, 'fault_code': code, 'not_reported_in': bad[:2]}
     return rp
 
